@@ -132,10 +132,11 @@ package types
 
 //@ func (*ValidatorSet).GetByIndex
 //@   props C15 C08
-//@   requires wfValSet(valSet) && 0 <= index && index < len(valSet.Validators)
+//@   requires wfValSet(valSet)
 //@   assigns  nothing
-//@   ensures  address == valSet.Validators[index].Address
-//@   ensures  val != nil && fresh(val) && val.VotingPower == valSet.Validators[index].VotingPower && val.PubKey == valSet.Validators[index].PubKey && val.Address == valSet.Validators[index].Address
+//@   ensures  (val != nil) == (0 <= index && index < len(valSet.Validators))
+//@   ensures  val != nil ==> address == valSet.Validators[index].Address
+//@   ensures  val != nil ==> fresh(val) && val.VotingPower == valSet.Validators[index].VotingPower && val.PubKey == valSet.Validators[index].PubKey && val.Address == valSet.Validators[index].Address
 
 //@ func (*ValidatorSet).TotalVotingPower
 //@   props C15 C14 C16
@@ -167,7 +168,7 @@ package types
 //@   assigns  nothing
 //@   ensures  wfBV(result, numValidators) && fresh(result) && result.sum == 0 && result.peerMaj23 == peerMaj23
 //@   ensures  forall(j, 0, numValidators, result.votes[j] == nil)
-//@   ensures  numValidators > 0 ==> fresh(result.votes)
+//@   ensures  numValidators > 0 ==> fresh(result.votes) && fresh(result.bitArray) && fresh(result.bitArray.Elems)
 //@   ensures  alive(arr(result.votes)) || arr(result.votes) == nil
 
 //@ func (*blockVotes).getByIndex
@@ -209,6 +210,8 @@ package types
 //@   requires blockKey == keyOf(vote.BlockID)
 //@   requires voteSet.votes[vote.ValidatorIndex] == nil || !blockIDEq(voteSet.votes[vote.ValidatorIndex].BlockID, vote.BlockID)
 //@   requires !(has(voteSet.votesByBlock, blockKey) && voteSet.votesByBlock[blockKey].votes[vote.ValidatorIndex] != nil)
+//@   assigns  voteSet.votes[*], voteSet.votesBitArray.Elems[*], voteSet.votesBitArray.mtx.*, voteSet.sum, voteSet.maj23, voteSet.votesByBlock[*], voteSet.valSet.totalVotingPower, \
+//@            voteSet.votesByBlock[blockKey].votes[*], voteSet.votesByBlock[blockKey].sum, voteSet.votesByBlock[blockKey].bitArray.Elems[*], voteSet.votesByBlock[blockKey].bitArray.mtx.*
 //@   ensures  [counted-once] voteSet.sum == old(voteSet.sum) + ite(old(voteSet.votes[i]) == nil, votingPower, 0)
 //@   ensures  [maj23-monotone] old(voteSet.maj23) != nil ==> voteSet.maj23 == old(voteSet.maj23) && *voteSet.maj23 == old(*voteSet.maj23)
 //@   ensures  [tally-once] added ==> has(voteSet.votesByBlock, blockKey) && voteSet.votesByBlock[blockKey].sum == oldBvSum + votingPower && voteSet.votesByBlock[blockKey].votes[i] == vote
@@ -235,6 +238,8 @@ package types
 //@   props C15 C01 C08
 //@   let i = vote.ValidatorIndex
 //@   requires wfVoteSet(voteSet) && majInv(voteSet) && vote != nil
+//@   assigns  voteSet.votes[*], voteSet.votesBitArray.Elems[*], voteSet.votesBitArray.mtx.*, voteSet.sum, voteSet.maj23, voteSet.votesByBlock[*], voteSet.valSet.totalVotingPower, \
+//@            voteSet.votesByBlock[keyOf(vote.BlockID)].votes[*], voteSet.votesByBlock[keyOf(vote.BlockID)].sum, voteSet.votesByBlock[keyOf(vote.BlockID)].bitArray.Elems[*], voteSet.votesByBlock[keyOf(vote.BlockID)].bitArray.mtx.*
 //@   ensures  [accepted-only-if-valid] added ==> vote.Height == voteSet.height && vote.Round == voteSet.round && vote.Type == voteSet.type_ \
 //@              && 0 <= i && i < len(voteSet.votes) && bytesEq(vote.ValidatorAddress, addrAt(voteSet.valSet, i)) \
 //@              && sigOK(pubKeyAt(voteSet.valSet, i), voteSB(voteSet.chainID, vote), vote.Signature)
@@ -244,3 +249,100 @@ package types
 //@   ensures  [rejected-unchanged] !added && err == nil ==> voteSet.sum == old(voteSet.sum) && voteSet.maj23 == old(voteSet.maj23)
 //@   ensures  [conflict-reported] added && old(voteSet.votes[i]) != nil ==> err != nil
 //@   ensures  wfVoteSet(voteSet) && majInv(voteSet)
+
+//@ func (*VoteSet).AddVote
+//@   props C15 C08
+//@   requires voteSet != nil ==> wfVoteSet(voteSet) && majInv(voteSet)
+//@   requires vote != nil
+//@   aborts when voteSet == nil
+//@   ensures  added ==> vote.Height == voteSet.height && vote.Round == voteSet.round && vote.Type == voteSet.type_ \
+//@              && 0 <= vote.ValidatorIndex && vote.ValidatorIndex < len(voteSet.votes) \
+//@              && sigOK(pubKeyAt(voteSet.valSet, vote.ValidatorIndex), voteSB(voteSet.chainID, vote), vote.Signature)
+//@   ensures  [maj23-monotone] old(voteSet.maj23) != nil ==> voteSet.maj23 == old(voteSet.maj23) && *voteSet.maj23 == old(*voteSet.maj23)
+//@   ensures  wfVoteSet(voteSet) && majInv(voteSet)
+
+//@ func (*VoteSet).TwoThirdsMajority
+//@   props C15 C04 C01
+//@   assigns  voteSet.mtx.*
+//@   ensures  ok == (voteSet != nil && voteSet.maj23 != nil)
+//@   ensures  ok ==> blockID == *voteSet.maj23
+//@   ensures  !ok ==> blockID.Hash == nil && blockID.PartsHeader.Total == 0 && blockID.PartsHeader.Hash == nil
+
+//@ func (*VoteSet).HasTwoThirdsMajority
+//@   props C15 C04
+//@   assigns  voteSet.mtx.*
+//@   ensures  result == (voteSet != nil && voteSet.maj23 != nil)
+
+//@ func (*VoteSet).HasTwoThirdsAny
+//@   props C15 C04
+//@   requires voteSet != nil ==> wfVoteSet(voteSet)
+//@   assigns  voteSet.mtx.*, voteSet.valSet.totalVotingPower
+//@   ensures  result == (voteSet != nil && voteSet.sum > totalPower(voteSet.valSet)*2/3)
+
+//@ func (*VoteSet).HasAll
+//@   props C15
+//@   requires wfVoteSet(voteSet)
+//@   assigns  voteSet.valSet.totalVotingPower
+//@   ensures  result == (voteSet.sum == totalPower(voteSet.valSet))
+
+//@ func (*VoteSet).MakeCommit
+//@   props C15 C02 C01
+//@   requires wfVoteSet(voteSet)
+//@   aborts when voteSet.type_ != VoteTypePrecommit || voteSet.maj23 == nil
+//@   assigns  voteSet.mtx.*
+//@   ensures  [commit-for-majority] result != nil && fresh(result) && result.BlockID == *voteSet.maj23
+//@   ensures  [commit-copies-votes] len(result.Precommits) == len(voteSet.votes) && forall(j, 0, len(voteSet.votes), result.Precommits[j] == voteSet.votes[j])
+//@   ensures  [commit-not-aliased] len(voteSet.votes) > 0 ==> fresh(result.Precommits)
+
+//@ func NewVoteSet
+//@   props C15
+//@   requires wfValSet(valSet)
+//@   aborts when height == 0
+//@   assigns  nothing
+//@   ensures  wfVoteSet(result) && majInv(result) && fresh(result) && result.maj23 == nil && result.sum == 0 && result.valSet == valSet
+//@   ensures  result.height == height && result.round == round && result.type_ == type_ && result.chainID == chainID
+//@   ensures  forall(j, 0, len(result.votes), result.votes[j] == nil)
+
+//@ lemma quorumExact: forall(s, Int, forall(T, Int, T >= 1 ==> ((s >= quorum(T)) == (3*s > 2*T)) && ((s > T*2/3) == (3*s > 2*T))))
+//@   props C15 C14 C01
+//@ lemma quorumIntersect: forall(T, Int, forall(a, Int, forall(b, Int, forall(f, Int, T >= 1 && 3*f < T && a >= quorum(T) && b >= quorum(T) && a <= T && b <= T ==> a + b - T > f))))
+//@   props C01 C15
+
+// ---------------------------------------------------------------------------------------------
+// commits (C15, C02)
+
+//@ func (*Commit).FirstPrecommit
+//@   props C15 C02 C08
+//@   requires commit != nil
+//@   assigns  commit.firstPrecommit
+//@   ensures  result != nil ==> result.Height == result.Height
+//@   loop 0 invariant 0 <= $i && $i <= len(commit.Precommits)
+
+//@ func (*Commit).Height
+//@   props C15 C02 C08
+//@   requires commit != nil
+//@   assigns  commit.firstPrecommit
+
+//@ func (*Commit).Round
+//@   props C15 C02 C08
+//@   requires commit != nil
+//@   assigns  commit.firstPrecommit
+
+//@ spec tally(k Int) Int
+//@ pred goodPrecommit(valSet *ValidatorSet, chainID String, blockID BlockID, height Int, commit *Commit, j Int) = commit.Precommits[j] != nil && commit.Precommits[j].Height == height \
+//@      && commit.Precommits[j].Type == VoteTypePrecommit && blockIDEq(blockID, commit.Precommits[j].BlockID) \
+//@      && sigOK(pubKeyAt(valSet, j), voteSB(chainID, commit.Precommits[j]), commit.Precommits[j].Signature)
+
+//@ func (*ValidatorSet).VerifyCommit
+//@   props C15 C02 C13 C01
+//@   requires wfValSet(valSet) && commit != nil
+//@   defines  tally(0) == 0 && forall(k, Int, k >= 0 ==> tally(k+1) == tally(k) + ite(goodPrecommit(valSet, chainID, blockID, height, commit, k), powerAt(valSet, k), 0))
+//@   assigns  commit.firstPrecommit, valSet.totalVotingPower
+//@   ensures  [commit-size] result == nil ==> len(commit.Precommits) == len(valSet.Validators)
+//@   ensures  [commit-two-thirds] result == nil ==> tally(len(commit.Precommits)) > totalPower(valSet)*2/3
+//@   ensures  [all-present-checked] result == nil ==> forall(j, 0, len(commit.Precommits), commit.Precommits[j] != nil ==> commit.Precommits[j].Height == height && commit.Precommits[j].Type == VoteTypePrecommit \
+//@              && sigOK(pubKeyAt(valSet, j), voteSB(chainID, commit.Precommits[j]), commit.Precommits[j].Signature))
+//@   loop 0 invariant 0 <= $i && $i <= len(commit.Precommits) && len(commit.Precommits) == len(valSet.Validators)
+//@   loop 0 invariant talliedVotingPower == tally($i)
+//@   loop 0 invariant forall(j, 0, $i, commit.Precommits[j] != nil ==> commit.Precommits[j].Height == height && commit.Precommits[j].Type == VoteTypePrecommit \
+//@              && sigOK(pubKeyAt(valSet, j), voteSB(chainID, commit.Precommits[j]), commit.Precommits[j].Signature))
